@@ -55,6 +55,9 @@ pub struct Done {
 fn oracle(d: &Done) -> Option<String> {
     let p = vcommon::stark_prime();
     let first = &d.runs[0].1;
+    if d.runs.is_empty() {
+        return Some("no run".into());
+    }
     for (name, r) in &d.runs[1..] {
         if r != first {
             return Some(format!("run variants differ: {}={:?} vs {}={:?}", d.runs[0].0, first, name, r));
@@ -200,7 +203,9 @@ fn main() {
     // ---- Coq case shards ----
     let mut by_leg: BTreeMap<&'static str, Vec<&Done>> = BTreeMap::new();
     for d in &done {
-        by_leg.entry(d.case.leg).or_default().push(d);
+        if d.case.coq {
+            by_leg.entry(d.case.leg).or_default().push(d);
+        }
     }
     let mut n_shards = 0;
     for (leg, ds) in &by_leg {
